@@ -37,7 +37,7 @@ for d in sorted(glob.glob(os.path.join(wt, '_mutants', 'm*'))):
     rc, o = sh('go build ./...')
     rec['builds'] = rc == 0
     rc, o = sh('go test -vet=off -count=1 -timeout 25m ./... 2>&1 | grep -v "^ok\\|no test files"')
-    failing = re.findall(r'^FAIL\s+(\S+)', o, re.M)
+    failing = re.findall(r'^FAIL[ \t]+(\S+)', o, re.M)
     if failing:
         again = []
         for p in sorted(set(failing)):
